@@ -1,0 +1,7 @@
+//go:build !verif
+
+package resolver
+
+// Verification gate point of groupLookup's leader closure. Without the
+// "verif" build tag the gate is an empty function the compiler inlines away.
+func verifFlightGate(string) {}
